@@ -503,6 +503,104 @@ def check_timelock_step(chk, F):
         chk.fail(rid, "unanalysable", "unanalysable: %s" % e, kind="unanalysable")
 
 
+# ---- R12.6 range gates ------------------------------------------------------------------------------------------------
+
+def check_ranges(chk, F):
+    from . import c06, decoder
+    from ..interp import Machine, Adt, PyVec, Panic
+    rid = "R12.6"
+    chk.rule(rid, "numbers are in range on every way in: relative / absolute lock times are accepted exactly for 1 <= n < 2^31 "
+                  "(constructor, text parser, script decoder); thresh / multi / multi_a accept exactly 1 <= k <= n, n within "
+                  "the context's key limit (text parser; decoder for CHECKMULTISIG)")
+    m = Machine(F, strict=True)
+    N = [0, 1, 2, 65535, 65536, 1 << 22, (1 << 22) | 5, 499999999, 500000000, (1 << 31) - 1, 1 << 31, (1 << 31) + 5, (1 << 32) - 1]
+    for nm, path in (("RelLockTime", "primitives::relative_locktime::RelLockTime::from_consensus"),
+                     ("AbsLockTime", "primitives::absolute_locktime::AbsLockTime::from_consensus")):
+        if path not in F.fns:
+            chk.fail(rid, "anchor|" + nm, "%s::from_consensus not found" % nm, kind="unanalysable")
+            continue
+        chk.saw(path)
+        for n in N:
+            try:
+                r = m.call_path(path, [n])
+                chk.obligation(rid, (r.variant == "Ok") == (1 <= n < (1 << 31)), "%s|%d" % (nm, n),
+                               "%s::from_consensus(%d) is %s; lock times are valid exactly for 1 <= n < 2^31" % (nm, n, r.variant),
+                               F.fns[path]["span"])
+            except (Unsupported, Panic) as e:
+                chk.fail(rid, "%s|%d" % (nm, n), "%s on %d: %s" % (nm, n, e), kind="unanalysable" if isinstance(e, Unsupported) else "violation")
+    T_ = c06.Typer(F)
+    keys = "ABCDEFGHIJKLMNOPQRSTUVWXYZ"
+
+    def accepts(text, ctx):
+        try:
+            return T_.type_of(text, ctx) is not None
+        except Panic:
+            return "panic"
+    cases = []
+    for n in N + [1 << 32, (1 << 32) + 1]:
+        ok_ = 1 <= n < (1 << 31)
+        cases += [("older(%d)" % n, "segwitv0", ok_), ("after(%d)" % n, "segwitv0", ok_), ("and_v(v:pk(A),older(%d))" % n, "tap", ok_)]
+    for k in range(0, 5):
+        ok_ = 1 <= k <= 3
+        cases += [("thresh(%d,pk(A),s:pk(B),s:pk(C))" % k, "segwitv0", ok_), ("multi(%d,A,B,C)" % k, "segwitv0", ok_),
+                  ("multi_a(%d,A,B,C)" % k, "tap", ok_), ("sortedmulti(%d,A,B,C)" % k, "segwitv0", ok_),
+                  ("sortedmulti_a(%d,A,B,C)" % k, "tap", ok_)]
+    for n_keys in (19, 20, 21, 22):
+        ks = ",".join((keys + "abcdef")[i] for i in range(n_keys))
+        cases.append(("multi(2,%s)" % ks, "segwitv0", n_keys <= 20))
+        cases.append(("sortedmulti(2,%s)" % ks, "segwitv0", n_keys <= 20))
+    cases += [("thresh(1)", "segwitv0", False), ("multi(1)", "segwitv0", False), ("multi_a(1)", "tap", False),
+              ("thresh(18446744073709551616,pk(A))", "segwitv0", False), ("older(-1)", "segwitv0", False), ("older(+1)", "segwitv0", False),
+              ("older(01)", "segwitv0", False), ("after(1.0)", "segwitv0", False)]
+    n_cases = 0
+    for text, ctx, want in cases:
+        n_cases += 1
+        try:
+            got = accepts(text, ctx)
+            chk.obligation(rid, got == want, "text|%s|%s" % (ctx, text if len(text) < 60 else text[:40] + ".."),
+                           "the %s parser %s `%s`; it is %s" % (ctx, "accepts" if got is True else ("panics on" if got == "panic" else "rejects"),
+                                                                text[:80], "in range" if want else "out of range"),
+                           "src/miniscript/astelem.rs")
+        except Unsupported as e:
+            chk.fail(rid, "unanalysable:" + text[:60], "unanalysable: %s" % e, where=e.where, kind="unanalysable")
+    # the script decoder
+    D = decoder.Decoder(F)
+    X = decoder.X
+
+    def num(n):
+        if n == 0:
+            return ("op", 0)
+        if 1 <= n <= 16:
+            return ("op", 0x50 + n)
+        return ("push", PyVec(decoder.scriptint_bytes(n)))
+    dcases = []
+    for n in [0, 1, 16, 17, 65535, 65536, (1 << 31) - 1, 1 << 31, (1 << 32) - 1]:
+        ok_ = 1 <= n < (1 << 31)
+        dcases.append(("%d CSV" % n, [num(n), ("op", 0xb2)], "segwitv0", ok_))
+        dcases.append(("%d CLTV" % n, [num(n), ("op", 0xb1)], "segwitv0", ok_))
+    KA, KB, KC = (("push", X.key(x, "ecdsa")) for x in "ABC")
+    for k in range(0, 5):
+        dcases.append(("%d A B C 3 CHECKMULTISIG" % k, [num(k), KA, KB, KC, num(3), ("op", 0xae)], "segwitv0", 1 <= k <= 3))
+    for nn in (0, 2, 4):
+        dcases.append(("1 A B C %d CHECKMULTISIG" % nn, [num(1), KA, KB, KC, num(nn), ("op", 0xae)], "segwitv0", False))
+    for name, ins, ctx, want in dcases:
+        n_cases += 1
+        try:
+            r = D.decode(ins, ctx, params="MAX") if False else D.decode(ins, ctx)
+            got = isinstance(r, Adt) and r.variant == "Ok"
+            # a lone lock time is not a valid top-level script for other reasons: judge the fragment inside and_v(v:pk(A), .)
+            if name.endswith(("CSV", "CLTV")):
+                r = D.decode([KA, ("op", 0xad)] + ins, ctx)
+                got = isinstance(r, Adt) and r.variant == "Ok"
+            chk.obligation(rid, got == want, "script|" + name, "the decoder %s `%s`; it is %s" % ("accepts" if got else "rejects", name,
+                           "in range" if want else "out of range"), "src/miniscript/decode.rs")
+        except Panic as e:
+            chk.fail(rid, "script|" + name, "the decoder panics on `%s`: %s" % (name, e), "src/miniscript/decode.rs")
+        except Unsupported as e:
+            chk.fail(rid, "unanalysable:script|" + name, "unanalysable: %s" % e, where=e.where, kind="unanalysable")
+    chk.floor(rid, "range cases", n_cases, 100)
+
+
 def run(chk):
     F = chk.facts()
     chk.explanation = (
@@ -521,6 +619,7 @@ def run(chk):
     check_validate_pk(chk, F)
     check_context_tables(chk, F)
     check_timelock_step(chk, F)
+    chk.guard("R12.6", "ranges", check_ranges, chk, F)
     from . import entrypoints
     entrypoints.check_entry_points(chk, F)
     entrypoints.check_constructors(chk, F)
